@@ -48,9 +48,43 @@ func sigString(fn *ssa.Function) (recv, sig string) {
 }
 
 func fingerprint(fn *ssa.Function, nameOf func(*ssa.Function) string) roleFP {
+	return fingerprintExpanding(fn, nameOf, nil)
+}
+
+// fingerprintExpanding also looks into the static callees for which expand returns true (functions
+// that are new since the pinned tree: code extracted from the candidate still counts as its own).
+func fingerprintExpanding(fn *ssa.Function, nameOf func(*ssa.Function) string, expand func(*ssa.Function) bool) roleFP {
 	recv, sig := sigString(fn)
 	cs := map[string]bool{}
 	calls := map[string]bool{}
+	seenFn := map[*ssa.Function]bool{}
+	var visitTree func(root *ssa.Function, depth int)
+	visitTree = func(root *ssa.Function, depth int) {
+		if seenFn[root] || depth > 3 {
+			return
+		}
+		seenFn[root] = true
+		fingerprintTree(root, nameOf, cs, calls, func(callee *ssa.Function) {
+			if expand != nil && expand(callee) {
+				delete(calls, nameOf(callee))
+				visitTree(callee, depth+1)
+			}
+		})
+	}
+	visitTree(fn, 0)
+	fp := roleFP{Recv: recv, Sig: sig}
+	for s := range cs {
+		fp.Consts = append(fp.Consts, s)
+	}
+	for s := range calls {
+		fp.Calls = append(fp.Calls, s)
+	}
+	sort.Strings(fp.Consts)
+	sort.Strings(fp.Calls)
+	return fp
+}
+
+func fingerprintTree(fn *ssa.Function, nameOf func(*ssa.Function) string, cs, calls map[string]bool, onCallee func(*ssa.Function)) {
 	walkFuncTree(fn, func(f *ssa.Function) {
 		eachInstr(f, func(in ssa.Instruction) {
 			for _, op := range in.Operands(nil) {
@@ -67,22 +101,23 @@ func fingerprint(fn *ssa.Function, nameOf func(*ssa.Function) string) roleFP {
 			if site, ok := in.(ssa.CallInstruction); ok {
 				if callee := site.Common().StaticCallee(); callee != nil {
 					calls[nameOf(callee)] = true
+					if onCallee != nil {
+						onCallee(callee)
+					}
 				} else if site.Common().IsInvoke() {
 					calls["invoke:"+site.Common().Method.Name()] = true
 				}
 			}
+			// a method value / function value of a new function (walker.visit passed around)
+			for _, op := range in.Operands(nil) {
+				if op != nil && *op != nil {
+					if g, ok := (*op).(*ssa.Function); ok && onCallee != nil && g.Parent() == nil {
+						onCallee(g)
+					}
+				}
+			}
 		})
 	})
-	fp := roleFP{Recv: recv, Sig: sig}
-	for s := range cs {
-		fp.Consts = append(fp.Consts, s)
-	}
-	for s := range calls {
-		fp.Calls = append(fp.Calls, s)
-	}
-	sort.Strings(fp.Consts)
-	sort.Strings(fp.Calls)
-	return fp
 }
 
 func jaccard(a, b []string) float64 {
@@ -131,6 +166,40 @@ func (p *Prog) resolveRoles() {
 	sort.Strings(missing)
 	for _, name := range missing {
 		want := roleTable[name]
+		// callees of the role that are gone as well may have been inlined into it: their constants and calls count as the role's
+		{
+			cs := map[string]bool{}
+			calls := map[string]bool{}
+			for _, c := range want.Consts {
+				cs[c] = true
+			}
+			var add func(fp roleFP, depth int)
+			add = func(fp roleFP, depth int) {
+				for _, c := range fp.Calls {
+					if c == name {
+						continue // self-recursion says nothing
+					}
+					if sub, isRole := roleTable[c]; isRole && p.byName[c] == nil && depth < 2 {
+						for _, k := range sub.Consts {
+							cs[k] = true
+						}
+						add(sub, depth+1)
+						continue
+					}
+					calls[c] = true
+				}
+			}
+			add(want, 0)
+			want.Consts, want.Calls = nil, nil
+			for k := range cs {
+				want.Consts = append(want.Consts, k)
+			}
+			for k := range calls {
+				want.Calls = append(want.Calls, k)
+			}
+			sort.Strings(want.Consts)
+			sort.Strings(want.Calls)
+		}
 		type cand struct {
 			fn    *ssa.Function
 			score float64
@@ -148,11 +217,76 @@ func (p *Prog) resolveRoles() {
 			if pkgOfRole(name) != pkgOfRole(rawShortName(fn)) {
 				continue
 			}
-			fp := fingerprint(fn, rawShortName)
-			score := 0.6*jaccard(fp.Consts, want.Consts) + 0.4*jaccard(fp.Calls, want.Calls)
+			fp := fingerprintExpanding(fn, rawShortName, func(callee *ssa.Function) bool {
+				if callee == nil || !inModule(callee) || len(callee.Blocks) == 0 {
+					return false
+				}
+				root := callee
+				for root.Parent() != nil {
+					root = root.Parent()
+				}
+				if o := root.Origin(); o != nil {
+					root = o
+				}
+				_, isRole := roleTable[rawShortName(root)]
+				return !isRole
+			})
+			// calls of the candidate to itself say nothing either
+			var candCalls []string
+			for _, c := range fp.Calls {
+				if c != rawShortName(fn) {
+					candCalls = append(candCalls, c)
+				}
+			}
+			score := 0.6*jaccard(fp.Consts, want.Consts) + 0.4*jaccard(candCalls, want.Calls)
 			cands = append(cands, cand{fn, score})
 		}
 		sort.Slice(cands, func(i, j int) bool { return cands[i].score > cands[j].score })
+		// a tie (a role split into mutually recursive pieces looks the same from each piece): the piece that the
+		// role's former callers call now is the role
+		if len(cands) > 1 && cands[0].score >= 0.45 && cands[0].score-cands[1].score < 0.15 {
+			evidence := func(cand *ssa.Function) int {
+				n := 0
+				for caller, fp := range roleTable {
+					cf := p.byName[caller]
+					if cf == nil {
+						continue
+					}
+					was := false
+					for _, c := range fp.Calls {
+						if c == name {
+							was = true
+						}
+					}
+					if !was {
+						continue
+					}
+					walkFuncTree(cf, func(f *ssa.Function) {
+						for _, site := range callsIn(f) {
+							if site.Common().StaticCallee() == cand {
+								n++
+							}
+						}
+					})
+				}
+				return n
+			}
+			best, bestN, second := -1, 0, 0
+			for i, cd := range cands {
+				if cands[0].score-cd.score >= 0.15 {
+					break
+				}
+				if e := evidence(cd.fn); e > bestN {
+					best, second, bestN = i, bestN, e
+				} else if e > second {
+					second = e
+				}
+			}
+			if best >= 0 && bestN > second {
+				cands[0], cands[best] = cands[best], cands[0]
+				cands[0].score += 0.2 // decided by caller evidence
+			}
+		}
 		switch {
 		case len(cands) == 1 && cands[0].score >= 0.3:
 		case len(cands) > 1 && cands[0].score >= 0.45 && cands[0].score-cands[1].score >= 0.15:
@@ -336,4 +470,99 @@ func (p *Prog) ownerRole(fn *ssa.Function) *ssa.Function {
 		}
 	}
 	return rootFunc(fn)
+}
+
+// ---------- roles that were inlined by hand and deleted ----------
+
+// hostsOf returns the role's function, or — when the role is gone and could not be re-bound — the
+// functions that called it in the pinned tree and still exist: a maintainer who deletes a small
+// function inlines its body into exactly those. Rules that look for a construct "in role F" look in
+// the hosts instead. The second result tells whether the role itself was found.
+func (p *Prog) hostsOf(role string) ([]*ssa.Function, bool) {
+	if f := p.byName[role]; f != nil {
+		return []*ssa.Function{f}, true
+	}
+	var hosts []*ssa.Function
+	var names []string
+	for name, fp := range roleTable {
+		for _, c := range fp.Calls {
+			if c == rawRoleName(role) {
+				names = append(names, name)
+			}
+		}
+	}
+	sort.Strings(names)
+	seen := map[*ssa.Function]bool{}
+	for _, n := range names {
+		if f := p.byName[n]; f != nil {
+			if !seen[f] {
+				seen[f] = true
+				hosts = append(hosts, f)
+			}
+			continue
+		}
+		// the former caller is gone as well (a chain of small functions merged into one): its former callers
+		if n != role {
+			up, _ := p.hostsOf(n)
+			for _, f := range up {
+				if !seen[f] {
+					seen[f] = true
+					hosts = append(hosts, f)
+				}
+			}
+		}
+	}
+	return hosts, false
+}
+
+// rawRoleName converts a short role name to the raw form used inside the fingerprint table's call lists.
+func rawRoleName(role string) string { return role }
+
+// markersOf: when a role is gone, the calls that its body made and that its former host did not make
+// itself stand for "the place where the role was": e.g. renderWithoutLayout → (*Vue).Render.
+func (p *Prog) markersOf(role string, host *ssa.Function) []string {
+	fp, ok := roleTable[role]
+	if !ok {
+		return nil
+	}
+	hostCalls := map[string]bool{}
+	if hfp, ok := roleTable[shortName(host)]; ok {
+		for _, c := range hfp.Calls {
+			hostCalls[c] = true
+		}
+	}
+	var out []string
+	for _, c := range fp.Calls {
+		if hostCalls[c] || strings.HasPrefix(c, "invoke:") {
+			continue
+		}
+		if _, isRole := roleTable[c]; isRole {
+			out = append(out, c)
+		}
+	}
+	return out
+}
+
+// callsToRole: the call sites in fn that call the role — or, when the role was inlined by hand into fn
+// and deleted, the calls that mark where its body went.
+func (p *Prog) callsToRole(fn *ssa.Function, role string) []ssa.CallInstruction {
+	var out []ssa.CallInstruction
+	for _, site := range callsIn(fn) {
+		if calleeName(site.Common()) == role {
+			out = append(out, site)
+		}
+	}
+	if len(out) > 0 || p.byName[role] != nil {
+		return out
+	}
+	markers := map[string]bool{}
+	for _, m := range p.markersOf(role, fn) {
+		markers[m] = true
+	}
+	for _, site := range callsIn(fn) {
+		if markers[calleeName(site.Common())] {
+			out = append(out, site)
+		}
+	}
+	return out
 }
